@@ -1,107 +1,1 @@
-// G-HEX-rle: the safety contract between load-time validation (rle_validate_encoding, the same
-// try_next_segment + validate_after walk RleLoadIter / Column::load performs) and the UNCHECKED
-// run decoder (RleDecoder::next / next_run, which unwrap and use from_utf8_unchecked).
-// Child module of hexane::rle::load. C35, C39.
-use super::*;
-use crate::encoding::RunDecoder;
-use crate::verif_kani::valid_utf8;
-
-/// For EVERY byte string of length N: the validator never panics; and if it accepts, then the
-/// unchecked decoder
-///  - walks the slab run by run without panicking and ends exactly at the end of the runs,
-///  - yields exactly `info.segments` runs whose counts add up to `info.len`, every count > 0,
-///  - item by item (`next`) yields Some for the first min(len, N) items, and None right after the
-///    last one when len <= N,
-///  - and every value it hands out satisfies $check (for String: valid UTF-8 by the independent
-///    validator, i.e. from_utf8_unchecked was only reached on validated bytes).
-macro_rules! rle_contract {
-    ($fname:ident, $t:ty, $b:ident, $info:ident, $v:ident, $check:expr, $cover:expr) => {
-        fn $fname<const N: usize>() {
-            let $b: [u8; N] = kani::any();
-            let b = &$b;
-            let mut accepted = false;
-            let mut witnessed = false;
-            match rle_validate_encoding::<$t, Leb128>(b) {
-                Ok($info) => {
-                    let mut d = RleDecoder::<$t, Leb128>::new(b);
-                    let mut total: usize = 0;
-                    let mut runs: usize = 0;
-                    let mut k = 0;
-                    // every run consumes at least one byte: N rounds reach the end
-                    while k < N {
-                        match d.next_run() {
-                            Some(r) => {
-                                assert!(r.count > 0);
-                                total += r.count;
-                                runs += 1;
-                                let $v = r.value;
-                                assert!($check);
-                            }
-                            None => break,
-                        }
-                        k += 1;
-                    }
-                    assert!(d.next_run().is_none());
-                    assert_eq!(total, $info.len);
-                    assert_eq!(runs, $info.segments);
-                    assert!($info.len > 0 && $info.segments > 0);
-                    assert!(d.pos() <= N);
-
-                    let mut it = RleDecoder::<$t, Leb128>::new(b);
-                    let mut i = 0;
-                    while i < N && i < $info.len {
-                        match it.next() {
-                            Some($v) => assert!($check),
-                            None => panic!("validated slab ended early"),
-                        }
-                        i += 1;
-                    }
-                    if $info.len <= N {
-                        assert!(it.next().is_none());
-                    }
-                    accepted = true;
-                    witnessed = $cover;
-                }
-                Err(e) => {
-                    std::mem::forget(e);
-                }
-            }
-            // a segment needs at least two bytes: every 1-byte slab is rejected
-            if N < 2 {
-                assert!(!accepted);
-            }
-            kani::cover!(N < 2 || accepted);
-            kani::cover!(N < 2 || witnessed);
-            kani::cover!(!accepted);
-        }
-    };
-}
-
-rle_contract!(contract_u64, u64, b, info, v, v == v, info.segments == N - 1);
-rle_contract!(contract_opt_u64, Option<u64>, b, info, v, v.is_none() || v.is_some(), info.len > info.segments);
-rle_contract!(contract_string, String, b, info, v, valid_utf8(v.as_bytes()), N < 3 || (info.segments == 1 && b[1] > 0));
-
-macro_rules! fixed_len_harness {
-    ($name:ident, $f:ident, $n:expr, $unwind:expr) => {
-        #[kani::proof]
-        #[kani::unwind($unwind)]
-        fn $name() {
-            $f::<$n>()
-        }
-    };
-}
-fixed_len_harness!(rle_contract_u64_len1, contract_u64, 1, 4);
-fixed_len_harness!(rle_contract_u64_len2, contract_u64, 2, 5);
-fixed_len_harness!(rle_contract_u64_len3, contract_u64, 3, 6);
-fixed_len_harness!(rle_contract_u64_len4, contract_u64, 4, 7);
-fixed_len_harness!(rle_contract_u64_len5, contract_u64, 5, 8);
-fixed_len_harness!(rle_contract_opt_u64_len1, contract_opt_u64, 1, 4);
-fixed_len_harness!(rle_contract_opt_u64_len2, contract_opt_u64, 2, 5);
-fixed_len_harness!(rle_contract_opt_u64_len3, contract_opt_u64, 3, 6);
-fixed_len_harness!(rle_contract_opt_u64_len4, contract_opt_u64, 4, 7);
-fixed_len_harness!(rle_contract_opt_u64_len5, contract_opt_u64, 5, 8);
-fixed_len_harness!(rle_contract_string_len1, contract_string, 1, 4);
-fixed_len_harness!(rle_contract_string_len2, contract_string, 2, 5);
-fixed_len_harness!(rle_contract_string_len3, contract_string, 3, 6);
-fixed_len_harness!(rle_contract_string_len4, contract_string, 4, 7);
-fixed_len_harness!(rle_contract_string_len5, contract_string, 5, 8);
+// harnesses for hexane/src/rle/load.rs
